@@ -34,6 +34,9 @@ func init() {
 			{ID: "C17-R9", Title: "marshalling iterates maps in a determined order (C05-R1 over package compiler)", Floor: 3, Run: func(c *core.Ctx) { c05r1Scoped(c, "compiler") }},
 			{ID: "C17-R10", Title: "child symbol tables are only appended (a table's id is its position)", Floor: 1, Run: childTablesAppendOnly},
 			{ID: "C17-R11", Title: "instruction arrays are not classified element by element (operands are not opcodes)", Floor: 1, Run: operandsAreNotOpcodes},
+			{ID: "C17-R12", Title: "string constants are JSON strings only when they are valid UTF-8", Floor: 1, Run: scriptStringsAreJSONStringsOnlyWhenUTF8},
+			{ID: "C17-R13", Title: "instruction words are not narrowed", Floor: 1, Run: instructionWordsNotNarrowed},
+			{ID: "C17-R14", Title: "function ids come from the compiler's counter", Floor: 1, Run: functionIDsFromTheCounter},
 		},
 	})
 }
